@@ -200,3 +200,35 @@ func SameObject(a, b interface{}) bool { return a == b }
 
 // Swr is the summary of the coordinator's seriesWithRate; natively it is the definition.
 func Swr(series int64, rate float64) int64 { return int64(float64(series) * rate) }
+
+// Branch-free boolean helpers: arguments are evaluated eagerly, so harness assertions written
+// with them do not fork the symbolic execution.
+func Implies(a, b bool) bool { return !a || b }
+func And(bs ...bool) bool {
+	for _, b := range bs {
+		if !b {
+			return false
+		}
+	}
+	return true
+}
+func Or(bs ...bool) bool {
+	for _, b := range bs {
+		if b {
+			return true
+		}
+	}
+	return false
+}
+func IfInt64(c bool, a, b int64) int64 {
+	if c {
+		return a
+	}
+	return b
+}
+func IfInt32(c bool, a, b int32) int32 {
+	if c {
+		return a
+	}
+	return b
+}
